@@ -114,6 +114,13 @@ type Exec struct {
 	Stubs         map[string]bool
 	MaxUnwind     int
 	cutBound      int
+	gs            []*gor
+	cur           *gor
+	runq          []*gor
+	xfer          interface{}
+	schedExplore  bool
+	chanN         int
+	leakDesc      string
 	Cuts          int
 	SpecOK        int
 	SpecFail      int
@@ -1037,6 +1044,11 @@ func sanitize(s string) string {
 // ---------- exploration ----------
 
 func (e *Exec) resetPath() {
+	if len(e.gs) > 0 {
+		e.killGoroutines()
+	} else {
+		e.initGoroutines()
+	}
 	for i := len(e.undo) - 1; i >= 0; i-- {
 		e.undo[i]()
 	}
